@@ -77,10 +77,33 @@ func vStepMaker(role int, st StateType) {
 		zzverif.Assume(false)
 	}
 	zzverif.Unwind(30)
+	w.effectProbe = func() *SwapStateMachine {
+		if sm, err := sc.svc.GetActiveSwap(sc.id); err == nil {
+			return sm
+		}
+		return nil
+	}
 	sc.vApply(stim)
 	post := sc.vCurrent()
 	pd := sc.sm.Data
 	zzverif.Reach("maker.step_done")
+	// ---- a swap that is not finished stays active ----
+	// (it stays in the active map, which is what lockSwap consults; dropping it would admit a second swap
+	// on the channel and lose every later event for this one)
+	if !vIsTerminal(post) {
+		_, aerr := sc.svc.GetActiveSwap(sc.id)
+		zzverif.Assert(aerr == nil, "C07.unfinished_swap_stays_active")
+	}
+	// ---- C15: the record keeps up with the state machine ----
+	// every send / broadcast / payment / spend of the step ran while the stored record named the state
+	// entered last before the running action's state (SendEvent writes after every action), and when the
+	// step is over the record names the state the swap rests in: a crash at any of these points is
+	// recovered from a state that knows what was done
+	zzverif.Assert(!w.effectStale, "C15.effects_run_on_a_current_record")
+	if act, err := sc.svc.GetActiveSwap(sc.id); err == nil && !w.storeFailed {
+		rec, ok := sc.env.store.recs[sc.id]
+		zzverif.Assert(ok && rec.Current == act.Current, "C15.record_names_resting_state")
+	}
 
 	// ---- C07 ----
 	if w.openings > 0 {
